@@ -199,7 +199,10 @@ def check_consistency(gw, what="consistency"):
     """C05(b): reported version, active protocol and schema context agree."""
     from aiomysensors.model.protocol import get_protocol
 
-    want = get_protocol(gw.protocol_version or "1.4")
+    try:
+        want = get_protocol(gw.protocol_version or "1.4")
+    except ValueError:
+        raise Violation("%s:reported-version-unparsable" % what, "protocol_version=%r is not a version, active protocol is %s" % (gw.protocol_version, gw.protocol.VERSION))
     if gw.protocol is not want:
         raise Violation("%s:version-vs-protocol" % what, "protocol_version=%r but active protocol is %s" % (gw.protocol_version, gw.protocol.VERSION))
     if gw._message_schema.context.get("protocol") is not want:
